@@ -192,7 +192,16 @@ pub fn check(thorough: bool, _seed: u64) -> Check {
         let xs: Vec<f64> = match kind {
             0 => vec![e(n.saturating_sub(3)), exact::pred(e(n.saturating_sub(2))), e(n.saturating_sub(2)), exact::succ(e(n.saturating_sub(2))), e(n - 1), e(n - 1) + 7.0],
             1 => (0..n).step_by(37).map(|k| ends[k] - 0.125).chain([e(n.saturating_sub(2)) + 0.125, e(n - 1) + 1.0]).collect(),
-            _ => vec![0.0, e(n / 2), e(n - 1) - 0.125, 0.25, e(n - 1) + 1.0, e(n.saturating_sub(2))],
+            2 => vec![0.0, e(n / 2), e(n - 1) - 0.125, 0.25, e(n - 1) + 1.0, e(n.saturating_sub(2))],
+            // a long strictly decreasing run after the cursor has moved (every argument still belongs to the running maximum's
+            // piece), then increasing again
+            _ => {
+                let top = e(n / 2) - 0.125;
+                let mut v = vec![top];
+                v.extend((1..=40).map(|k| top - k as f64 * (top + 3.0) / 41.0));
+                v.extend([top - 0.0625, top + 0.5, e(n - 1) - 0.125, e(n - 1) + 2.0]);
+                v
+            }
         };
         let idxs: Vec<usize> = (0..xs.len()).collect();
         let u = Unit { ends, alpha: xs, depth: 0 };
@@ -210,7 +219,7 @@ pub fn check(thorough: bool, _seed: u64) -> Check {
             let top = if thorough { 3300 } else { 1100 };
             let k = cx.choose(top - 1 + 4);
             let n = if k < top - 1 { 2 + k } else { [4097usize, 8193, 16385, 65537][k - (top - 1)] };
-            let kind = cx.choose(3);
+            let kind = cx.choose(4);
             match unit {
                 0 => sized::<Poly0>(n, kind, "Poly0", cx),
                 1 => sized::<Poly1>(n, kind, "Poly1", cx),
@@ -223,7 +232,7 @@ pub fn check(thorough: bool, _seed: u64) -> Check {
         }),
         classes: vec![],
         bounds: json!({"piece_types": "Poly0, Poly1, Poly3, Poly5, Poly7, Poly8, Log<Poly2> (Segment sizes 16..80 bytes)", "pieces": if thorough {"every n from 2 to 3300, and 4097, 8193, 16385, 65537"} else {"every n from 2 to 1100, and 4097, 8193, 16385, 65537"},
-            "arguments": "three sequences: around the last two breakpoints (pred / exact / succ) and beyond; an increasing sweep through every 37th cell into the last two cells; a sequence with decreases (first cell, middle breakpoint, last cell, back to the first cell, beyond, second-to-last breakpoint)"}),
+            "arguments": "four sequences: a run of 40 strictly decreasing arguments after the cursor has reached the middle piece, then increasing again; around the last two breakpoints (pred / exact / succ) and beyond; an increasing sweep through every 37th cell into the last two cells; a sequence with decreases (first cell, middle breakpoint, last cell, back to the first cell, beyond, second-to-last breakpoint)"}),
     };
     Check {
         id: "C12",
